@@ -155,6 +155,22 @@ def c_gmm(ctx, case):
     if var_ok:
         ctx.close(v2 / a[None, :] ** 2, v1, "variances map to a^2*var", rtol=tol * 10, atol=tol * float((sd**2).max()))
     ctx.stat_max("kappa", kap)
+    if case["trainer"] == "ml":
+        # the public M-step called directly, with the update switches as ARGUMENTS on machines whose own switch
+        # attributes are the constructor defaults: one step from the same statistics follows the transform as well
+        import bob.learn.em.gmm as G
+
+        res = []
+        for ini, XX in ((init, X), (init2, X2)):
+            gd = sut.make_gmm(ini)
+            G.ml_gmm_m_step(gd, gd.acc_stats(XX), update_means=upd[0], update_variances=upd[1], update_weights=upd[2])
+            res.append(sut.params_of(gd))
+        (dw1, dm1, dv1), (dw2, dm2, dv2) = res
+        t1 = 1e-8 * max(1.0, kap**2)
+        ctx.close(dw2, dw1, "direct M-step: weights unchanged", rtol=t1, atol=t1 * 1e-3)
+        ctx.close((dm2 - b[None, :]) / a[None, :], dm1, "direct M-step: means map to a*mu+b", rtol=0,
+                  atol=t1 * float(sd.max()) * 10 + t1 * float(np.abs(dm1).max()))
+        ctx.close(dv2 / a[None, :] ** 2, dv1, "direct M-step: variances map to a^2*var", rtol=t1 * 10, atol=t1 * float((sd**2).max()))
 
 
 def g_map_starved(draw):
